@@ -137,7 +137,7 @@ def run(args):
                                  stub_components=[], rep=rep, pool=pool, finish=False,
                                  sample_of=lambda h: {'list_sizes': [len(l) for l in h['lists']], 'first_candidates': h['lists'][0][:3], 'ops': h['ops'][:12], 'n_ops': len(h['ops'])})
     if not stop:
-        pipe_common.run_check('C07', args, PIPE_PROFILE, RULE, pipe_signature, pipe_nontrivial, rep=rep, pool=pool, finish=False, budget=total * 0.5)
+        pipe_common.run_check('C07', args, PIPE_PROFILE, RULE, pipe_signature, pipe_nontrivial, rep=rep, pool=pool, finish=False, budget=total * 0.5, crash_mode=True)
     code = rep.finish()
     pool.close()
     return code
